@@ -282,7 +282,8 @@ def find_function(tree: ast.Module, qualname: str):
     body = tree.body
     node = None
     for i, p in enumerate(parts):
-        node = next((n for n in body if isinstance(n, (ast.ClassDef, ast.FunctionDef, ast.AsyncFunctionDef)) and n.name == p), None)
+        cands = [n for n in body if isinstance(n, (ast.ClassDef, ast.FunctionDef, ast.AsyncFunctionDef)) and n.name == p]
+        node = cands[-1] if cands else None     # the last definition wins (typing overloads come first)
         if node is None:
             raise Unsupported(f'{qualname}: not found')
         body = node.body
